@@ -21,6 +21,35 @@ pub struct W {
     kv: KvWorld,
     watcher: crate::world::Session,
     last_version: std::collections::BTreeMap<String, i32>,
+    /// a secondary that receives everything the node queues for replication, in order
+    replica: KvWorld,
+    link: crate::world::Session,
+    fed: usize,
+}
+
+impl W {
+    /// pass what the primary queued on to the replica and compare the values of k and j
+    fn replicate_and_compare(&mut self, what: &str) -> Vec<StepViolation> {
+        let (msgs, _) = self.kv.node.drain_queues();
+        self.replica.node.ctx.install();
+        for m in msgs {
+            if m.starts_with("replicate-snapshot") {
+                continue;
+            }
+            self.fed += 1;
+            self.link.exec(&self.replica.node, &format!("rp {} {}", 9000 + self.fed, m));
+        }
+        self.replica.node.drain_queues();
+        let view = |n: &crate::world::Node| -> std::collections::BTreeMap<String, String> {
+            crate::world::with_db(&n.dbs, "t", |db| crate::world::live_view(&crate::world::dump_db(db)).into_iter().filter(|(k, _)| k == "k" || k == "j").map(|(k, v)| (k, v.0)).collect()).unwrap_or_default()
+        };
+        let (p, r) = (view(&self.kv.node), view(&self.replica.node));
+        self.kv.node.ctx.install();
+        if p != r {
+            return v("replica-differs-from-primary", format!("after {}: the primary holds {:?}, a secondary that applied the same writes in the primary's order holds {:?}", what, p, r));
+        }
+        vec![]
+    }
 }
 
 pub struct C19 {
@@ -42,13 +71,20 @@ impl SeqModel for C19 {
         watcher.exec(&kv.node, "use-db t tok");
         watcher.exec(&kv.node, "watch k");
         watcher.exec(&kv.node, "watch j");
-        let mut w = W { kv, watcher, last_version: Default::default() };
+        let replica = KvWorld::new("c19r", "newer");
+        let mut link = crate::world::Session::new();
+        link.exec(&replica.node, &format!("auth {} {}", crate::world::USER, crate::world::PWD));
+        link.exec(&replica.node, "set-primary primary:1");
+        kv.node.ctx.install();
+        let mut w = W { kv, watcher, last_version: Default::default(), replica, link, fed: 0 };
         w.kv.model.insert("$connections".into(), "3".into());
         w.kv.node.drain_queues();
+        w.replica.node.drain_queues();
         w
     }
     fn drop_world(&self, w: W) {
-        w.kv.finish()
+        w.kv.finish();
+        w.replica.finish()
     }
     fn key(&self, w: &W) -> String {
         format!("{:?}|{:?}|{}", w.kv.model, w.last_version, w.kv.impl_key())
@@ -67,9 +103,12 @@ impl SeqModel for C19 {
             }
             L::Remove { key } => {
                 let o = w.kv.tok.exec(&w.kv.node, &format!("remove {}", key));
-                w.kv.node.drain_queues();
+                let rv = w.replicate_and_compare(&format!("remove {}", key));
                 if o.resp != "Ok" {
                     return v("write-refused", format!("{:?}: {:?}", l, o));
+                }
+                if !rv.is_empty() {
+                    return rv;
                 }
                 w.kv.model.remove(*key);
                 w.last_version.remove(*key);
@@ -110,9 +149,12 @@ impl SeqModel for C19 {
             _ => unreachable!(),
         };
         let o = w.kv.tok.exec(&w.kv.node, &line);
-        w.kv.node.drain_queues();
+        let rv = w.replicate_and_compare(&format!("`{}`", line));
         if o.panic.is_some() {
             return v("panic", format!("`{}`: {:?}", line, o));
+        }
+        if !rv.is_empty() {
+            return rv;
         }
         if o.resp != "Ok" {
             return v("write-refused", format!("`{}` (current version {}): {:?}", line, cur, o));
@@ -226,6 +268,7 @@ pub fn run(run: &mut Run) {
     run.cov("ilv_configs_capped", json!(capped));
     run.cov("ilv_max_distinct_outcomes_per_config", json!(maxo));
     run.cov("exhaustive", json!(ex && capped == 0));
+    run.assume("sequential part: after every step the messages the node queued for replication are applied, in order, by a second node over one link, and the values of both keys must be equal on the two nodes");
     run.assume("every write carries a unique value, so 'the stored value changes' and 'the write was stored' coincide");
     run.assume("on one node the logical clock makes a later-issued change newer, so every write must win");
     run.assume("replicas: after every interleaving a fresh replica is fed the primary's replication queue in order and must end with the primary's value and version; executions in which the queue order differs from the order the primary applied the writes in (the same messages in another order reproduce the primary) are outside this property's premise 'applied in the primary's order' and are C04's finding KF-C04-03");
